@@ -19,9 +19,12 @@
                              _remove_shapes_without_statements/_remove_statements_to_gone_shapes
                              (the set is only tested for membership)
     - [yield_triples]        io/graph/yielder/remote/sgraph_from_selectors_triple_yielder.py:
-                             _collect_every_target_node returns [list(set)], and the triples are
-                             fetched node by node IN THAT ORDER (model/graph/abstract_sgraph.py:
-                             yield_p_o_triples_of_target_nodes, depth 1)
+                             the triples are fetched node by node in the order of
+                             _collect_every_target_node (model/graph/abstract_sgraph.py:
+                             yield_p_o_triples_of_target_nodes, depth 1).  After
+                             notes/proposed_fixes/C19-target-node-order.diff that order is the
+                             insertion order of a dict (a function of the arguments); before it
+                             was [list(set)] (finding C19-F2, fixed)
     - [first_seen]           what downstream code observes of a triple sequence beyond its
                              multiset: the order in which keys first occur (insertion order of the
                              profile dictionaries, which the stable sort of equally frequent
